@@ -200,6 +200,30 @@ func c15r2(p *Program, r *Report) {
 	if isCallerQuery(qid) {
 		isCopy = false
 	}
+	// the copy stays a copy: the only fields given a value of their own are the paging state and the per-page
+	// metrics; any other field of the follow-up query (statement, values, consistency, context, ...) must keep the
+	// value the caller's query has now (a store of the caller's own field value is a no-op and accepted)
+	ast.Inspect(host.Decl.Body, func(x ast.Node) bool {
+		as, ok := x.(*ast.AssignStmt)
+		if !ok || len(as.Lhs) != len(as.Rhs) {
+			return true
+		}
+		for i, l := range as.Lhs {
+			sel, ok := ast.Unparen(l).(*ast.SelectorExpr)
+			if !ok || !isIdentOf(info, sel.X, qobj) {
+				continue
+			}
+			if p.isField(info, sel, "Query", "pageState") || p.isField(info, sel, "Query", "metrics") {
+				continue
+			}
+			if rs, ok := ast.Unparen(as.Rhs[i]).(*ast.SelectorExpr); ok && rs.Sel.Name == sel.Sel.Name && isCallerQuery(rs.X) {
+				continue
+			}
+			r.Bad(as, "(*Conn).executeQuery next-page query keeps every other field of the caller's query: "+sel.Sel.Name,
+				"the follow-up query's "+sel.Sel.Name+" is overwritten with "+exprStr(as.Rhs[i])+": the next page is requested with another "+sel.Sel.Name+" than the query the caller ran (a per-attempt context, for instance, is cancelled when the first page returns, and the second page is never fetched)")
+		}
+		return true
+	})
 	r.Check(qobj != qryParam && isCopy, lit, "(*Conn).executeQuery next-page query is a private copy made when the page arrives", "*newQry = *qry before scheduling",
 		"the follow-up page is scheduled with the caller's own *Query (or no copy is made now): if the caller re-binds, modifies or releases the query before the page is fetched, the next page is requested with other values or options")
 	r.Check(pageFromResp, lit, "(*Conn).executeQuery next-page query carries this response's paging state", "newQry.pageState = x.meta.pagingState", "the follow-up query does not carry the paging state of the response just received")
